@@ -150,7 +150,7 @@ func c14Run(c *Ctx, idx int) {
 	for v := 0; v < 6; v++ {
 		data := c14Assign(r, doc)
 		lv := c.LibSearch(text, data)
-		if !m.Unspec && m.Fault != 0 && lb.Err != nil && lv.Err != nil && m.Fault&lb.Cats != 0 && m.Fault&lv.Cats != 0 {
+		if MultiFaultOK(m, lb, lv) {
 			continue // several faults present: either may be reported
 		}
 		if !SameOutcome(lb, lv, loose) {
